@@ -415,6 +415,33 @@ func runC10(p *Prog, r *Report) {
 		if q, isC := other.norm().P["fld("+bs+")."+rb.cur]; isC && q.Cmp(big.NewRat(1, 1)) < 0 && q.Sign() > 0 {
 			shrinks = true
 		}
+		// which records take part: a record is skipped exactly when it already has its configured weight
+		{
+			fnc := cs.st.Parent()
+			curA, origA := "fld("+bs+")."+rb.cur, target
+			for _, ifi := range ifs(fnc) {
+				cmp, okc := CanonCmp(BuildExpr(p, ifi.Cond, nil))
+				if !okc {
+					continue
+				}
+				at := cmp.D.P.atoms()
+				if !at[curA] || !at[origA] {
+					continue
+				}
+				for k := 0; k < 2; k++ {
+					if !OnlyViaEdge(fnc, cs.st, Edge{ifi.Block(), k}) {
+						continue
+					}
+					c := cmp
+					if k == 1 {
+						c = cmp.Negate()
+					}
+					r.Paths++
+					r.Check(c.Op == "!=", "C10.R5", tn+": every record that differs from its configured weight converges, in "+FName(fnc), p.InstrPos(ifi),
+						"the convergence step is guarded by current != configured only", "the convergence step is guarded by "+c.String()+": a record whose current weight differs from the configured one in the other direction (e.g. below it after the gcd normalisation) is never restored, the configured proportions are not reached")
+				}
+			}
+		}
 		r.Check(ok && shrinks, "C10.R5", tn+": converging weight never drops below the configured weight, in "+FName(cs.st.Parent()), p.InstrPos(cs.st),
 			"result = max(configured, current/factor) as an if-then-else", "the convergence step "+truncate(e.String(), 160)+" can yield a weight below the configured one (or does not shrink)")
 	}
